@@ -7,9 +7,10 @@
   (no aliasing) is what the harness re-reads after every operation.
 -/
 import Batchie.Lemmas.ViewsSelect
+import Batchie.Lemmas.ScreenApi
 
 namespace Batchie.Props.C14
-open Batchie.Screen Batchie.Proto Batchie.Views
+open Batchie.Screen Batchie.Proto Batchie.Views Batchie.ScreenApi
 
 /-! ### attributes -/
 
@@ -296,6 +297,67 @@ theorem C14_attr_generic {α : Type} (s : Screen) (w : WF s) (e : ViewExpr) (v :
   have hl : xs.length = v.sel.length := by rw [hx, h1]
   obtain ⟨a1, a2, a3, a4⟩ := C14_attr xs v.sel hl
   exact ⟨by rw [h2], a1, a2, a3, a4⟩
+
+/-- members of a view's attribute: the parent's entries at the selected positions -/
+theorem mem_maskFilter_iff {α : Type} (xs : List α) (sel : List Bool) (h : xs.length = sel.length) (x : α) :
+    x ∈ maskFilter xs sel ↔ ∃ i : Nat, sel[i]? = some true ∧ xs[i]? = some x := by
+  have h1 : x ∈ maskFilter xs sel ↔ some x ∈ (maskFilter xs sel).map some := by simp
+  rw [h1, maskFilter_eq_selIdx xs sel h, List.mem_map]
+  constructor
+  · rintro ⟨i, hi, hx⟩; exact ⟨i, (mem_selIdx sel i).mp hi, hx⟩
+  · rintro ⟨i, hi, hx⟩; exact ⟨i, (mem_selIdx sel i).mpr hi, hx⟩
+
+/-- **Derived properties of a view are those of the parent's selected rows.** For every view reached by any composition of view
+    operations, `size`, `n_plates`, `unique_plate_ids`, `unique_sample_ids`, `unique_treatments`, `n_unique_*`, `treatment_arity`,
+    `is_observed` and the space sizes (`viewDerived`, run by the driver's `vderived` against the real properties) are the values
+    computed from the rows the expression denotes (`C14_attr_generic`): the unique-id lists are strictly ascending and contain
+    exactly the ids found at selected rows, the counts are their lengths, `is_observed` holds iff every selected row is
+    observed, arity and space sizes are the parent's. -/
+theorem C14_view_derived (s : Screen) (w : WF s) (e : ViewExpr) (v : View) (h : eval s e = .ok v) :
+    viewDerived s v.sel = viewDerived s (denote s e) ∧
+    (viewDerived s v.sel).size = v.size ∧ (viewDerived s v.sel).arity = s.arity ∧
+    (viewDerived s v.sel).sampleSpaceSize = s.smap.length ∧ (viewDerived s v.sel).treatmentSpaceSize = s.tmap.length ∧
+    (viewDerived s v.sel).uniquePlateIds.Pairwise (· < ·) ∧
+    (∀ p, p ∈ (viewDerived s v.sel).uniquePlateIds ↔ ∃ i : Nat, v.sel[i]? = some true ∧ s.pids[i]? = some p) ∧
+    (viewDerived s v.sel).uniqueSampleIds.Pairwise (· < ·) ∧
+    (∀ x, x ∈ (viewDerived s v.sel).uniqueSampleIds ↔ ∃ i : Nat, v.sel[i]? = some true ∧ s.sids[i]? = some x) ∧
+    (viewDerived s v.sel).uniqueTreatments.Pairwise (· < ·) ∧
+    (∀ x, x ∈ (viewDerived s v.sel).uniqueTreatments ↔
+      (x ≠ -1 ∧ ∃ (i : Nat) (row : List Int), v.sel[i]? = some true ∧ s.tids[i]? = some row ∧ x ∈ row)) ∧
+    (viewDerived s v.sel).nPlates = (viewDerived s v.sel).uniquePlateIds.length ∧
+    (viewDerived s v.sel).nUniqueSamples = (viewDerived s v.sel).uniqueSampleIds.length ∧
+    (viewDerived s v.sel).nUniqueTreatments = (viewDerived s v.sel).uniqueTreatments.length ∧
+    ((viewDerived s v.sel).isObserved = true ↔ ∀ i : Nat, v.sel[i]? = some true → s.mask[i]? = some true) := by
+  obtain ⟨h1, h2⟩ := eval_sound s w e v h
+  have hp : s.pids.length = v.sel.length := by rw [w.len_pids, h1, Screen.size, w.len_snames]
+  have hs : s.sids.length = v.sel.length := by rw [w.len_sids, h1, Screen.size, w.len_snames]
+  have ht : s.tids.length = v.sel.length := by rw [w.len_tids, h1, Screen.size, w.len_snames]
+  have hm : s.mask.length = v.sel.length := by rw [w.len_mask, h1, Screen.size, w.len_snames]
+  refine ⟨by rw [h2], ?_, rfl, rfl, rfl, sortedUniqueInts_strict _, ?_, sortedUniqueInts_strict _, ?_,
+    (sortedUniqueInts_strict _).filter _, ?_, rfl, rfl, rfl, ?_⟩
+  · simp only [viewDerived, derivedOf, View.size]; exact length_maskFilter _ _ ht
+  · intro p; simp only [viewDerived, derivedOf]; rw [mem_sortedUniqueInts]; exact mem_maskFilter_iff _ _ hp p
+  · intro x; simp only [viewDerived, derivedOf]; rw [mem_sortedUniqueInts]; exact mem_maskFilter_iff _ _ hs x
+  · intro x
+    simp only [viewDerived, derivedOf, List.mem_filter, mem_sortedUniqueInts, List.mem_flatten, bne_iff_ne, ne_eq]
+    constructor
+    · rintro ⟨⟨row, hrow, hx⟩, hne⟩
+      obtain ⟨i, hi, hr⟩ := (mem_maskFilter_iff _ _ ht row).mp hrow
+      exact ⟨hne, i, row, hi, hr, hx⟩
+    · rintro ⟨hne, i, row, hi, hr, hx⟩
+      exact ⟨⟨row, (mem_maskFilter_iff _ _ ht row).mpr ⟨i, hi, hr⟩, hx⟩, hne⟩
+  · simp only [viewDerived, derivedOf, List.all_eq_true, id]
+    constructor
+    · intro hall i hi
+      have hil : i < s.mask.length := by
+        rw [hm]; exact (List.getElem?_eq_some_iff.mp hi).1
+      have := hall _ ((mem_maskFilter_iff _ _ hm s.mask[i]).mpr ⟨i, hi, List.getElem?_eq_getElem hil⟩)
+      rw [List.getElem?_eq_getElem hil, this]
+    · intro hall b hb
+      obtain ⟨i, hi, hbi⟩ := (mem_maskFilter_iff _ _ hm b).mp hb
+      have := hall i hi
+      rw [hbi] at this
+      exact Option.some.inj this
 
 /-- the denotation is built from the set operations: complement, union, nested selection -/
 theorem C14_denote_algebra (s : Screen) :
